@@ -47,11 +47,13 @@ def sample_evenly(items, k):
 
 def run_standard(prop, tier, gens, case_of, trace, key_of, corruptors, init_name, rule, assumptions,
                  timeout=10.0, batch=50, extra_cases=None, nontrivial=None, level='model_checking',
-                 post=None, exhaustive=True, inconclusive_is_violation=False, judge_shard=4000, sort_key=None):
+                 post=None, exhaustive=True, inconclusive_is_violation=False, judge_shard=4000, sort_key=None, history_of=None):
     """gens: list of dicts {module, cfg, mode: 'dump'|'sim', num, depth, where}.
     case_of(state) -> case dict (must contain 'api' and the contract case under 'c') or None.
     trace: (module, cfg). key_of(case, clause) -> canonical key dict.
-    corruptors: list of (select(event)->bool, mutate(event)->event) ; every mutated event must be rejected."""
+    corruptors: list of (select(event)->bool, mutate(event)->event) ; every mutated event must be rejected.
+    history_of(case) -> group key: second pass in which all cases of one group run back to back, in sorted order, in
+    one worker process on one set of cached models (every observation of the second pass is judged like the first)."""
     import copy
     t0 = time.time()
     wd = common.WorkDir(prop)
@@ -85,6 +87,17 @@ def run_standard(prop, tier, gens, case_of, trace, key_of, corruptors, init_name
         else:
             cases.sort(key=lambda c: json.dumps({k: v for k, v in c.items() if k != 'c'}, sort_keys=True, ensure_ascii=False, default=str))
         obs = pool.run_cases(cases, init_name=init_name, timeout=timeout, batch=batch, progress=prop)
+        n_first = len(cases)
+        n_groups = 0
+        if history_of:
+            by = {}
+            for idx, c in enumerate(cases):
+                by.setdefault(history_of(c), []).append(idx)
+            groups = [by[k] for k in sorted(by)]
+            n_groups = len(groups)
+            obs2 = pool.run_cases(cases, init_name=init_name, timeout=timeout, progress=prop + '/histories', groups=groups)
+            cases = cases + cases
+            obs = list(obs) + list(obs2)
         events, inconclusive = [], 0
         for idx, (c, o) in enumerate(zip(cases, obs)):
             if o.get('timeout') and not inconclusive_is_violation:
@@ -120,7 +133,10 @@ def run_standard(prop, tier, gens, case_of, trace, key_of, corruptors, init_name
                     fh.write(json.dumps({'key': key_of(cases[eid], clause), 'clause': clause, 'observed': obs[eid]}, ensure_ascii=False, default=str) + '\n')
         for eid, clause in res['bad']:
             c = cases[eid]
-            V.violation(key_of(c, clause), {'case': c, 'observed': obs[eid], 'clause': clause})
+            payload = {'case': c, 'observed': obs[eid], 'clause': clause}
+            if eid >= n_first:
+                payload['pass'] = 'history: run after the other cases of group %r on the same cached models' % (history_of(c),)
+            V.violation(key_of(c, clause), payload)
         if res['nbad'] > len(res['bad']):
             V.note('%d failing events in total; first %d reported' % (res['nbad'], len(res['bad'])))
         for eid in res['drift'][:5]:
@@ -144,6 +160,7 @@ def run_standard(prop, tier, gens, case_of, trace, key_of, corruptors, init_name
             'generators': gen_info,
             'binding_selftest': 'passed (%d corrupted observations rejected)' % nbadwant,
             'inconclusive_timeouts': inconclusive,
+            'history_groups_replayed': n_groups,
             'mechanism_drift_events': len(res['drift']),
             'known_findings_hit': sorted(V.known_hits),
             'failing_events': res['nbad'],
